@@ -419,14 +419,15 @@ func firstRepoFrame(stack string) string {
 // ---- the check --------------------------------------------------------------------------------------
 
 const c40Rule = "each case runs in a child process of the -race test binary: a memory hierarchy (seeded access agent -> write-back cache -> ideal memory controller, 400–650 reads and as many writes, " +
-	"one of 4 presets) built by simulation.MakeBuilder() with the monitor on (free port taken from the monitor's own announcement), engine.Run() on one goroutine while a client goroutine issues 30–70 " +
+	"one of 4 presets) built by simulation.MakeBuilder() with the monitor on (free port taken from the monitor's own announcement), engine.Run() on one goroutine while the parent process issues 30–70 " +
 	"drawn requests over loopback HTTP to the real routes /api/pause, /api/continue, /api/engine/state, /api/now, /api/tick/<comp>, /api/list_components, /api/component/<comp>, " +
 	"/api/field/<json> (existing and missing fields, with and without slice paging), /api/hangdetector/buffers (sort/limit/offset), /api/progress, /api/mode, /api/trace/is_tracing with drawn gaps " +
-	"(0–3 ms) and Gosched counts, GOMAXPROCS 2/3/4/8, always ending with continue. Oracle: (1) the race detector reports nothing (signature = monitor handler / engine-loop|event-handler); no handler " +
+	"(0–3 ms) and Gosched counts, GOMAXPROCS 2/3/4/8, always ending with continue. (The client is not in the simulation process so that no harness-side synchronisation can reach the HTTP handler " +
+	"and mask a race.) Oracle: (1) the race detector reports nothing (signature = monitor handler / engine-loop|event-handler); no handler " +
 	"panics; (2) the run finishes with every access answered and — unless a tick request injected an event — the same fingerprint as the unmonitored run of the same preset: hash of (time, handler) of " +
 	"every dispatched event, hash of (time, data) of every response, final DRAM contents, agent state, final time (IDs excluded); a difference is only reported after two more unmonitored runs " +
 	"reproduced the reference. Request kinds whose handler is named by a listed known race finding are replaced by other kinds (case counted as excluded). A run that does not finish within the " +
-	"bounded wait is inconclusive, never a violation. Non-trivial: ≥ 20 requests were answered while engine.Run() was in progress."
+	"bounded wait is inconclusive, never a violation. Non-trivial: ≥ 20 requests were answered while engine.Run() was in progress (request send/receive times against the run's start/end times)."
 
 func TestC40Monitor(t *testing.T) {
 	s := kit.Begin(t, "C40", "monitor", c40Rule)
